@@ -53,7 +53,7 @@ ASSUMPTIONS = [
     "that is NOT selected: both 'reported as FlowIRVariableUnknown' and 'ignored' are accepted (statement is silent)",
     "expected error type for an undefined reference at the observation point: FlowIRVariableUnknown",
 ]
-TIERS = {"quick": {"shards": 8, "budget": 300}, "thorough": {"shards": 16, "budget": 1500}}
+TIERS = {"quick": {"shards": 8, "budget": 300}, "thorough": {"shards": 16, "budget": 2400}}
 
 PROBE_OPTIONS_QUICK = ["command.arguments", "resourceRequest.numberProcesses", "resourceManager.config.walltime",
                        "command.resolvePath"]
